@@ -16,6 +16,21 @@ ASSUMPTIONS = [
 ]
 
 OBLIGATIONS = [
+    chx("commonshare_authoritative", "C03_h", "h_commonshare", bounds={"quick": {"NSEGMAX": 3}, "thorough": {"NSEGMAX": 5}}, timeout={"quick": 120, "thorough": 900},
+        cases={"quick": [{"real": r, "_label": "real%d" % r} for r in (1, 2, 3)], "thorough": [{"real": r, "_label": "real%d" % r} for r in (1, 2, 3, 4, 5)]},
+        desc="real ShareFinder._create_share / update_num_segments / CommonShare for every sequence of up to 4 events (a DYHB answer announces share number 0..2, or the UEB "
+             "is validated - at most once), guessed and real segment counts symbolic: shares with the same number get the same CommonShare; once the UEB is known EVERY CommonShare - "
+             "also one created afterwards for a share number not seen before - is authoritative, sized for the real segment count and accepts its block hash root (otherwise a good "
+             "late share is abandoned and the read can fail with >= k good shares); before that it carries the guess",
+        outside="the rest of validate_and_store_UEB (hash check, parsing: C02/C01)"),
+    chx("desire_real_geometry", "C03_h", "h_desire", bounds={"quick": {"MMAX": 3, "SIZEMAX": 16, "SEGMAX": 3}, "thorough": {"MMAX": 4, "SIZEMAX": 30, "SEGMAX": 5}},
+        cases={"quick": [{"k": k, "_label": "k%d" % k} for k in (1, 2, 3)], "thorough": [{"k": k, "_label": "k%d" % k} for k in (1, 2, 3)]},
+        timeout={"quick": 120, "thorough": 1200},
+        desc="real Share.__init__/_guess_offsets/get_block/_desire/_desire_data for a Share created while the node was still guessing the segment size and that did NOT validate "
+             "the UEB itself: after the node's real geometry is known (guess and real segment size symbolic, equal or not) and the share has its real offset table, the bytes it "
+             "desires inside the block-data region for segment s are exactly the writer's block span offsets['data'] + s*block_size (tail block length for the last segment), and "
+             "they are 'needed' (otherwise it asks at the wrong offset and its request never completes: the fetcher stalls)",
+        outside="guessing phase (no offset table yet); hash-chain spans (C02)"),
     chx("share_truncated", "C03_h", "h_share_trunc", bounds={"quick": {"SPAN": 2}, "thorough": {"SPAN": 4}}, timeout={"quick": 120, "thorough": 1200},
         cases={"thorough": [{"nobs": n, "fr": f, "_label": "obs%d%s" % (n, ".readfail" if f else "")} for n in (1, 2) for f in (0, 1)]},
         desc="real Share.get_block/loop/_do_loop/_send_requests/_got_data/_got_error/_trigger_loop/_fail against a server holding a share image of symbolic length (answers "
